@@ -8,6 +8,7 @@ import PurlModel.Purl
 import PurlModel.Ops
 import PurlModel.RustOrd
 import PurlModel.Serde
+import PurlModel.JsonText
 import PurlModel.Generated.UnicodeData
 open Purl Purl.Generated
 
@@ -634,81 +635,7 @@ def opShape (bitsTok : String) (rest : List String) : M String := do
 
 /-! ### serde: serde_json's text layer (glue, not part of the model) -/
 
-def hex4 (n : Nat) : String :=
-  String.ofList [hexLowerDigit (n / 4096 % 16).toUInt8, hexLowerDigit (n / 256 % 16).toUInt8,
-    hexLowerDigit (n / 16 % 16).toUInt8, hexLowerDigit (n % 16).toUInt8]
-
-/-- `serde_json::to_string` of a string value -/
-def jsonQuote (s : Str) : Str :=
-  let body := s.flatMap fun c =>
-    if c == '"' then ['\\', '"']
-    else if c == '\\' then ['\\', '\\']
-    else if c.toNat == 8 then ['\\', 'b']
-    else if c.toNat == 12 then ['\\', 'f']
-    else if c == '\n' then ['\\', 'n']
-    else if c == '\r' then ['\\', 'r']
-    else if c == '\t' then ['\\', 't']
-    else if c.toNat < 32 then ('\\' :: 'u' :: (hex4 c.toNat).toList)
-    else [c]
-  '"' :: body ++ ['"']
-
-def isJsonWs (c : Char) : Bool := c == ' ' || c == '\n' || c == '\r' || c == '\t'
-
-def hexDigitVal (c : Char) : Option Nat :=
-  if '0' ≤ c ∧ c ≤ '9' then some (c.toNat - 48)
-  else if 'a' ≤ c ∧ c ≤ 'f' then some (c.toNat - 87)
-  else if 'A' ≤ c ∧ c ≤ 'F' then some (c.toNat - 55)
-  else none
-
-def hex4Val : List Char → Option (Nat × List Char)
-  | a :: b :: c :: d :: rest =>
-    match hexDigitVal a, hexDigitVal b, hexDigitVal c, hexDigitVal d with
-    | some w, some x, some y, some z => some (w * 4096 + x * 256 + y * 16 + z, rest)
-    | _, _, _, _ => none
-  | _ => none
-
-/-- body of a JSON string after the opening quote: (content, rest after the closing quote) -/
-partial def jsonStringBody (cs : List Char) (acc : List Char) : Option (Str × List Char) :=
-  match cs with
-  | [] => none
-  | '"' :: rest => some (acc.reverse, rest)
-  | '\\' :: e :: rest =>
-    match e with
-    | '"' => jsonStringBody rest ('"' :: acc)
-    | '\\' => jsonStringBody rest ('\\' :: acc)
-    | '/' => jsonStringBody rest ('/' :: acc)
-    | 'b' => jsonStringBody rest (Char.ofNat 8 :: acc)
-    | 'f' => jsonStringBody rest (Char.ofNat 12 :: acc)
-    | 'n' => jsonStringBody rest ('\n' :: acc)
-    | 'r' => jsonStringBody rest ('\r' :: acc)
-    | 't' => jsonStringBody rest ('\t' :: acc)
-    | 'u' =>
-      match hex4Val rest with
-      | none => none
-      | some (n, rest2) =>
-        if 0xD800 ≤ n ∧ n < 0xDC00 then
-          match rest2 with
-          | '\\' :: 'u' :: rest3 =>
-            match hex4Val rest3 with
-            | some (m, rest4) =>
-              if 0xDC00 ≤ m ∧ m < 0xE000 then
-                jsonStringBody rest4 (Char.ofNat (0x10000 + (n - 0xD800) * 1024 + (m - 0xDC00)) :: acc)
-              else none
-            | none => none
-          | _ => none
-        else if 0xDC00 ≤ n ∧ n < 0xE000 then none
-        else jsonStringBody rest2 (Char.ofNat n :: acc)
-    | _ => none
-  | c :: rest => if c.toNat < 32 then none else jsonStringBody rest (c :: acc)
-
-/-- the JSON documents the correspondence stream uses: a string, or recognisably something else -/
-def jsonDoc (doc : Str) : Option Json :=
-  match doc.dropWhile isJsonWs with
-  | '"' :: rest =>
-    match jsonStringBody rest [] with
-    | some (s, tail) => if tail.all isJsonWs then some (.str s) else none
-    | none => none
-  | _ => none   -- every other kind, and malformed text, ends in a serde error either way
+def hex4 (n : Nat) : String := String.ofList (hex4c n)
 
 def opSerde (rest : List String) : M String := do
   let shape ← argAt rest 0
